@@ -494,3 +494,41 @@ def mode_helpers(F):
     if n < 14:
         raise CheckError("expected ≥14 mode-selecting helpers, found %d" % n)
     return r
+
+
+def finish_resets_priority_mode(F):
+    """R-FINISH-INSTR: FunctionModifier::inject consults the function-level mode first (`self.instr_flag.current_mode`):
+    while it is set every injection is filed as function entry/exit code.  `finish_instr` is the only way to leave that
+    mode, so it must reset exactly the flag inject gives priority to; resetting something else leaves later
+    instruction-level injections (block exit, before/after at a location …) filed as function-entry code."""
+    r = RuleResult("R-FINISH-INSTR",
+                   "<FunctionModifier as Instrumenter>::finish_instr resets the mode flag that <FunctionModifier as Inject>::inject tests first")
+    inj = [f for f in F.fns if f["name"] == "inject" and f.get("body") is not None and "FunctionModifier" in f["path"] and (f.get("impl_trait") or "").endswith("Inject")]
+    fin = [f for f in F.fns if f["name"] == "finish_instr" and f.get("body") is not None and "FunctionModifier" in f["path"]]
+    if len(inj) != 1 or len(fin) != 1:
+        raise CheckError("FunctionModifier inject/finish_instr not found (%d/%d)" % (len(inj), len(fin)))
+    inj, fin = inj[0], fin[0]
+    r.analysed += [inj["path"], fin["path"]]
+    prio = None
+    for n in walk(inj["body"]):
+        if n.get("k") == "If":
+            for x in walk(n["cond"]):
+                pp = place_path(x) if x.get("k") in ("Field", "MethodCall") else None
+                if pp and "current_mode" in pp:
+                    prio = pp.split(".current_mode")[0]
+            break
+    if prio is None:
+        raise CheckError("FunctionModifier::inject: no priority test on a current_mode found")
+    resets = set()
+    for x in walk(fin["body"]):
+        if x.get("k") == "MethodCall" and x["method"] == "finish_instr":
+            resets.add(place_path(x["recv"]) or "?")
+        if x.get("k") == "Assign" and (place_path(x["lhs"]) or "").endswith(".current_mode"):
+            resets.add((place_path(x["lhs"]) or "").rsplit(".current_mode", 1)[0])
+    uncond = any(x.get("k") == "MethodCall" and x["method"] == "finish_instr" and (place_path(x["recv"]) or "") == prio and not (conditional_ancestors(fin["body"], x) or []) for x in walk(fin["body"])) or \
+        any(x.get("k") == "Assign" and (place_path(x["lhs"]) or "") == prio + ".current_mode" and not (conditional_ancestors(fin["body"], x) or []) for x in walk(fin["body"]))
+    ok = uncond
+    r.ob(ok, {"inject tests first": prio + ".current_mode", "finish_instr resets": sorted(resets)})
+    if not ok:
+        r.violate("%s | wrong flag" % fin["path"], F.loc(fin), "inject gives priority to `%s.current_mode`, but finish_instr resets %s: after func_entry()/func_exit() … finish_instr(), later instruction-level injections are still filed as function-level code" % (prio, sorted(resets) or "nothing"))
+    return r
